@@ -1,1 +1,2 @@
 import MaltModel.Util.Sexp
+import MaltModel.Props.C20
